@@ -740,6 +740,12 @@ fn fam_ext<F: FnMut(&'static str, &[u8])>(c: &CorpusCfg, f: &mut F) {
                     } else {
                         emit(&[], 40, &[], f); // far too short
                     }
+                    if claimed <= 700 && dn <= 1 {
+                        // as a later occurrence of a repeated option (delta 0 after an earlier value),
+                        // and right behind a neighbour (delta 1)
+                        emit(&[0x00], claimed, &[], f);
+                        emit(&[0x21, 0x55], claimed, &[0x01, 0x77], f);
+                    }
                     if claimed <= 64 {
                         emit(&[], claimed, &[0xff, 0x70], f); // followed by a payload
                         emit(&[], claimed, &[0x10], f); // followed by another option
